@@ -8,6 +8,9 @@ Clauses (each mirrors a theorem of `Verif.Props.C03`):
   report    a poll made while a completed ping is undrained (and the source registered) reports the source
   callback  a drain runs the callback exactly when it read a completed ping — one callback per drain
   close     a drain that reads the close removes the source; a removed source is never polled again
+  followed  every `ping()` that has returned is followed by a callback that started after the ping began: the loop
+            never finds the eventfd empty while such a callback is still owed (the property's own wording — it does
+            not look at how, or whether, the ping wrote to the eventfd)
 -/
 namespace Verif.Spec.C03
 
@@ -27,6 +30,9 @@ structure Mon where
   expectCb : Option Nat := none           -- cbs expected after the drain step
   cbs : Nat := 0
   pollHadPing : Bool := false
+  closeRead : Bool := false               -- the drain whose callback is running read the close
+  began : List (Nat × Nat) := []          -- per pinger: callbacks started when its current ping began
+  owedMin : Nat := 0                      -- callbacks that must have started by the next quiet poll
   bad : Option String := none
   deriving Repr
 
@@ -38,6 +44,9 @@ def lookup (l : List (Nat × String)) (k : Nat) : String :=
 
 def setL (l : List (Nat × String)) (k : Nat) (v : String) : List (Nat × String) :=
   (k, v) :: l.filter (·.1 != k)
+
+def lookupN (l : List (Nat × Nat)) (k : Nat) : Option Nat := (l.find? (·.1 == k)).map (·.2)
+def setN (l : List (Nat × Nat)) (k v : Nat) : List (Nat × Nat) := (k, v) :: l.filter (·.1 != k)
 
 def onRec (m : Mon) (r : Rec) : Mon :=
   if r.label == "skip" then m else
@@ -53,12 +62,22 @@ def onRec (m : Mon) (r : Rec) : Mon :=
           let hadClose := m.closeP > 0
           let m := m.flag (r.cbs != m.cbs + (if hadPing then 1 else 0))
             s!"a drain that read {m.unc} completed ping(s) changed the callback count from {m.cbs} to {r.cbs}"
-          let m := m.flag (hadClose && r.reg != 0) "the drain read the close but the source is still registered"
-          let m := m.flag (!hadClose && r.reg != 1) "the source was removed although no close had been written"
+          -- the post action follows the callback: if the thread is now parked inside the callback it is still to come
+          let m := if r.label == "ping.cb" then { m with closeRead := hadClose } else
+            let m := m.flag (hadClose && r.reg != 0) "the drain read the close but the source is still registered"
+            m.flag (!hadClose && r.reg != 1) "the source was removed although no close had been written"
           { m with unc := 0, closeP := 0, cbs := r.cbs }
+        else if prev == "ping.cb" then
+          let m := m.flag (r.cbs != m.cbs) "the callback count changed outside a drain"
+          let m := m.flag (m.closeRead && r.reg != 0) "the drain read the close but the source is still registered"
+          let m := m.flag (!m.closeRead && r.reg != 1) "the source was removed although no close had been written"
+          { m with closeRead := false }
         else m.flag (r.cbs != m.cbs) "the callback count changed outside a drain"
       let m :=
         if prev == "loop.poll" then { m with pollHadPing := (m.unc > 0 || m.closeP > 0) && r.reg == 1 } else m
+      -- followed: a quiet poll (nothing to read) while a returned ping has not been followed by a callback start
+      let m := m.flag (r.label == "loop.polled" && r.counter == 0 && r.reg == 1 && m.cbs < m.owedMin)
+        s!"a ping() has returned and no callback has started since it began ({m.cbs} so far, {m.owedMin} needed), yet the loop polls and finds the eventfd empty"
       if prev == "loop.polled" then
         let m := m.flag (m.pollHadPing && r.label != "efd.drain")
           "a poll made while a completed ping/close was undrained did not report the source"
@@ -68,6 +87,11 @@ def onRec (m : Mon) (r : Rec) : Mon :=
       let prev := lookup m.lastPinger r.thread
       let m := { m with lastPinger := setL m.lastPinger r.thread r.label }
       let m := m.flag (r.cbs != m.cbs) "the callback count changed during a pinger step"
+      -- a ping begins in the step that reaches `efd.ping` — or `ping.returned` directly, if it never wrote
+      let m := if r.label == "efd.ping" || (r.label == "ping.returned" && prev != "efd.written")
+               then { m with began := setN m.began r.thread m.cbs } else m
+      let m := if r.label == "ping.returned" then
+          { m with owedMin := Nat.max m.owedMin ((lookupN m.began r.thread).getD m.cbs + 1) } else m
       if r.label == "efd.written" then
         if prev == "efd.ping" then { m with unc := m.unc + 1 }
         else if prev == "efd.close" then { m with closeP := m.closeP + 1 }
